@@ -314,10 +314,10 @@ def config_defines(repo):
     return defs
 
 
-COND_RE = re.compile(r'^[ \t]*#[ \t]*(ifdef|ifndef|if|elif|else|endif|define|undef)\b(.*)$')
+COND_RE = re.compile(r'^[ \t]*#[ \t]*(ifdef|ifndef|if|elif|else|endif|define|undef|include)\b(.*)$')
 
 
-def resolve_conditionals(text, defines):
+def resolve_conditionals(text, defines, include_cb=None):
     """Blank the inactive branches of #if/#ifdef/#elif/#else/#endif (newlines kept)
     for conditions of the form defined(X) / !defined(X) / X-is-defined. Conditions that
     cannot be decided are left in place (both branches kept, directive lines kept) -
@@ -397,6 +397,12 @@ def resolve_conditionals(text, defines):
                 out.append(ln)
             else:
                 out.append('')
+        elif kw == 'include':
+            # local headers contribute their #defines (e.g. SAFE_HYDRO_VARIABLES from Hydro.hpp)
+            mm = re.match(r'\s*"([^"]+)"', rest)
+            if cur_active() and mm and include_cb is not None:
+                include_cb(mm.group(1), defines)
+            out.append(ln if cur_active() else '')
         elif kw == 'undef':
             if cur_active():
                 defines.discard(rest.strip())
@@ -421,7 +427,22 @@ class Source:
         # conditional compilation: resolved with the pinned build's Configuration.hpp
         # and the #defines of the file itself
         defines = set(config_defines(repo))
-        self.text = resolve_conditionals(self.text, defines)
+        srcdir = os.path.dirname(self.path)
+        visiting = set([os.path.abspath(self.path)])
+
+        def include_cb(name, defs):
+            path = os.path.abspath(os.path.join(srcdir, name))
+            if path in visiting or not os.path.exists(path):
+                return
+            visiting.add(path)
+            try:
+                with open(path, encoding='utf-8', errors='replace') as f:
+                    t = blank_comments(f.read())
+                resolve_conditionals(t, defs, include_cb)
+            except ExtractionError:
+                pass
+
+        self.text = resolve_conditionals(self.text, defines, include_cb)
         self.defines = defines
 
     def class_span(self, cls):
@@ -713,6 +734,8 @@ def parse_template(text):
                 items.append(('define', parse_attrs(rest)))
             elif word == 'enumval':
                 items.append(('enumval', parse_attrs(rest)))
+            elif word == 'expect':
+                items.append(('expect', parse_attrs(rest)))
             elif word in ('function', 'region', 'members'):
                 if cur is not None:
                     raise ExtractionError('template line %d: nested block' % (i + 1))
@@ -966,6 +989,22 @@ class Extractor:
         return ''.join(out), count
 
     # ------------------------------------------------------------------
+    def expect(self, a):
+        """Accessor check: every definition of class::name must have a body matching the regex
+        (whitespace-normalised). Unit rewrites that encode an accessor's meaning rely on this."""
+        src = self.src(a['file'])
+        defs = find_definitions(src, a['name'], a.get('class'), 'method' if 'class' in a else 'free')
+        if not defs:
+            raise ExtractionError('expect: %s not found in %s' % (a['name'], a['file']))
+        rx = re.compile(a['body'])
+        for d in defs:
+            body = re.sub(r'\s+', ' ', src.text[d['body_lb'] + 1:d['body_rb']]).strip()
+            if not rx.fullmatch(body):
+                raise ExtractionError('expect: body of %s::%s is %r, does not match %r' % (a.get('class', ''), a['name'], body, a['body']))
+        self.report.setdefault('accessor_checks', []).append(dict(name=a['name'], file=a['file'], body=a['body'], definitions=len(defs)))
+        return '/* accessor %s::%s checked: body matches /%s/ (%d definitions) */' % (a.get('class', ''), a['name'], a['body'], len(defs))
+
+    # ------------------------------------------------------------------
     def enumval(self, a):
         """#define NAME <value of enumerator NAME> (enumerators counted from 0 or from explicit '= n').
         names=A,B,C extracts several enumerators of the same file."""
@@ -1025,22 +1064,37 @@ class Extractor:
         text = src.text
         if blk.kind == 'region':
             pat = re.compile(a['begin'])
-            ms = list(pat.finditer(text))
+            lo_, hi_ = 0, len(text)
+            if 'within' in a:
+                wdefs = find_definitions(src, a['within'], a.get('class'), 'method' if 'class' in a else 'free')
+                if len(wdefs) != 1:
+                    raise ExtractionError('region %s: enclosing function %s found %d times' % (a['cname'], a['within'], len(wdefs)))
+                lo_, hi_ = wdefs[0]['body_lb'], wdefs[0]['body_rb']
+            ms = list(pat.finditer(text, lo_, hi_))
             occ = int(a.get('occurrence', 0))
             if not ms:
                 raise ExtractionError('region %s: begin pattern not found' % a['cname'])
             if occ == 0 and len(ms) != 1:
                 raise ExtractionError('region %s: begin pattern matches %d times' % (a['cname'], len(ms)))
             m = ms[occ - 1 if occ else 0]
-            if a.get('whole') == '1':
+            if 'until' in a:
+                # statement sequence: from the begin match up to and including the until match
+                mu = re.compile(a['until']).search(text, m.end(), hi_)
+                if not mu:
+                    raise ExtractionError('region %s: until pattern not found' % a['cname'])
+                start_off = m.start()
+                lb = None
+                rb = mu.end() - 1
+            elif a.get('whole') == '1':
                 # statement beginning at match start up to end of its brace block
                 lb = text.find('{', m.end() - 1)
                 start_off = m.start()
             else:
                 lb = text.find('{', m.end() - 1)
                 start_off = lb
-            rb = match_bracket(text, lb)
-            if a.get('whole') == '1':
+            if lb is not None:
+                rb = match_bracket(text, lb)
+            if 'until' in a or a.get('whole') == '1':
                 body = '{' + text[start_off:rb + 1] + '}'
             else:
                 body = text[lb:rb + 1]
@@ -1213,6 +1267,8 @@ class Extractor:
                 out.append(self.define(it))
             elif kind == 'enumval':
                 out.append(self.enumval(it))
+            elif kind == 'expect':
+                out.append(self.expect(it))
             else:
                 if it.kind == 'members':
                     txt, names = self.members(it)
